@@ -298,6 +298,9 @@ def main():
         chk.case("singlet.perturbative-exact.o2.max+2", case_singlet, method="perturbative-exact", order=2, max_order_extra=2)
     else:
         chk.case("singlet.truncated.o3.diag0", case_singlet, method="truncated", order=3, kind="diag0")
+    # order 4 with diagonal gamma: cheap, and sensitive to anything that spoils the a^2, a^3 terms of the truncated kernel
+    chk.case("singlet.truncated.o4.diag", case_singlet, method="truncated", order=4, kind="diag")
+    chk.case("singlet.perturbative-exact.o4.diag", case_singlet, method="perturbative-exact", order=4, kind="diag")
     return chk.run()
 
 
